@@ -1,19 +1,16 @@
-(* Markdown: the two places where today's writer and reader are not inverse, as vm_compute witnesses over the models
-   (both replayed on the real binary: findings markdown-escaped-bar-not-unescaped, markdown-dash-only-row-dropped). *)
+(* Markdown: writer then reader is the identity. *)
 From Miller Require Import Base.Bytes Base.Record C01.Model C01.ModelXtab C01.ModelLite C01.ModelPprint C01.ModelMd.
 Open Scope char_scope.
 
-(* the writer escapes "|" as "\|", the reader splits on every "|": header/data length mismatch *)
-Lemma markdown_escaped_bar_refuted :
-  exists recs, forallb (fun r => negb (is_nil r) && nodupb (keys r)) recs = true
-    /\ read_markdown false true false (write_markdown (@List.length ascii) false false recs) <> Some recs.
-Proof. exists [[(B "a", B "x|y"); (B "b", B "2")]]. split; [reflexivity|]. vm_compute. discriminate. Qed.
-
-(* a data row whose cells consist of "-" and spaces only matches the header-separator pattern and is skipped *)
-Lemma markdown_dash_row_refuted :
-  exists recs, forallb (fun r => negb (is_nil r) && nodupb (keys r)) recs = true
-    /\ read_markdown false true false (write_markdown (@List.length ascii) false false recs) <> Some recs.
-Proof. exists [[(B "a", B "-"); (B "b", B "")]]. split; [reflexivity|]. vm_compute. discriminate. Qed.
+(* the two former defects (repaired in /repo 80287c7ad, 75f65c604), as regression examples over the models *)
+Example markdown_escaped_bar_regression :
+  read_markdown false true false (write_markdown (@List.length ascii) false false [[(B "a", B "x|y"); (B "b", B "2")]])
+  = Some [[(B "a", B "x|y"); (B "b", B "2")]].
+Proof. vm_compute. reflexivity. Qed.
+Example markdown_dash_row_regression :
+  read_markdown false true false (write_markdown (@List.length ascii) false false [[(B "a", B "-"); (B "b", B "")]; [(B "a", B "---"); (B "b", B "-")]])
+  = Some [[(B "a", B "-"); (B "b", B "")]; [(B "a", B "---"); (B "b", B "-")]].
+Proof. vm_compute. reflexivity. Qed.
 
 (* what does hold on samples (a test, not a theorem: the general markdown round trip is not proved yet) *)
 Example markdown_roundtrip_sample :
